@@ -201,6 +201,96 @@ ORDER_FREE_CALLS = {"insert", "contains", "contains_key", "get", "get_mut", "ent
                     "get_template_instantiation_data", "contains", "sort_by", "sort", "from_iter", "push_str_internal"}
 
 
+COMMUTATIVE_ASSIGN_OPS = {"Add", "BitOr", "BitAnd", "BitXor", "Mul", "AddAssign", "BitOrAssign", "BitAndAssign", "BitXorAssign", "MulAssign"}
+
+
+def order_sensitive_assignments(body, local_ids):
+    """Assignments inside a loop body to variables that outlive an iteration, other than commutative / idempotent
+    updates: `x = min(x, v)` / `x = max(x, v)` / `x = x.min(v)`, `if v < x { x = v }`, `x += v` / `|=` / `&=`, and
+    `x = <loop-invariant constant>`. Anything else is 'last writer wins': its final value depends on the visiting order.
+    Returns [(name, node)]."""
+    out = []
+    parent = {}
+    local_ids = set(local_ids)
+    for n in F.walk(body):
+        if isinstance(n, dict) and n.get("k") == "Bind" and "id" in n:
+            local_ids.add(n["id"])          # inner loop / match-arm / let bindings live inside one iteration
+        for c in F.children(n):
+            if isinstance(c, dict):
+                parent[id(c)] = n
+    for a in F.walk(body):
+        if a.get("k") not in ("Assign", "AssignOp"):
+            continue
+        lv = F.leftmost_var(a["l"])
+        if lv is None or lv["id"] in local_ids:
+            continue
+        lhs = F.strip(a["l"])
+        if lhs.get("k") not in ("Var", "Field", "Deref"):
+            continue       # indexed / keyed element update
+        if any(x.get("k") == "Index" or (x.get("k") == "Call" and short(x.get("fn") or "") in ("index_mut", "get_mut", "entry", "unwrap")) for x in F.walk(a["l"])):
+            continue
+        if a.get("k") == "AssignOp":
+            if a.get("op") in COMMUTATIVE_ASSIGN_OPS:
+                continue
+            out.append((lv.get("name"), a))
+            continue
+        r = F.strip(a["r"])
+        # x = min(x, v) / max / x.min(v)
+        if r.get("k") == "Call" and short(r.get("fn") or "") in ("min", "max") and any((F.leftmost_var(g) or {}).get("id") == lv["id"] for g in r.get("args", [])):
+            continue
+        # loop-invariant value: no variable of the loop (pattern / let) occurs in the right-hand side
+        rvars = {v["id"] for v in F.exprs(a["r"], "Var")}
+        if not (rvars & local_ids) and not any(x.get("k") == "Call" and short(x.get("fn") or "") not in ("from", "into", "clone", "to_string", "new", "default") for x in F.walk(a["r"])):
+            continue
+        # if v < x { x = v }
+        guard = parent.get(id(a))
+        ok = False
+        hops = 0
+        while guard is not None and hops < 4:
+            if guard.get("k") == "If":
+                c = F.strip(guard["cond"])
+                cmpop = (c.get("k") == "Binary" and c.get("op") in ("Lt", "Le", "Gt", "Ge")) or (c.get("k") == "Call" and short(c.get("fn") or "") in ("lt", "le", "gt", "ge"))
+                if cmpop and any(v["id"] == lv["id"] for v in F.exprs(c, "Var")):
+                    ok = True
+                break
+            guard = parent.get(id(guard))
+            hops += 1
+        if not ok:
+            out.append((lv.get("name"), a))
+    return out
+
+
+def hash_ordered_vec_consumers(b, loop, all_loops):
+    """A hash loop that pushes into a plain local Vec leaves that Vec in hash order. Every later loop over that Vec is
+    then a hash-order loop too: returns the order-sensitive assignments found in those consumer loops [(vec, var)]."""
+    p, it, body, node = loop
+    if body is None:
+        return []
+    out = []
+    vecs = {}
+    for c in F.exprs(body, "Call"):
+        if short(c.get("fn") or "") in ("push", "push_back") and c.get("args"):
+            rv = F.leftmost_var(c["args"][0])
+            if rv is not None and not field_path(c["args"][0]):
+                vecs[rv["id"]] = rv.get("name")
+    for (p2, it2, body2, node2) in all_loops:
+        if body2 is None or node2 is node:
+            continue
+        v = F.leftmost_var(it2)
+        if v is None or v["id"] not in vecs:
+            continue
+        its = F.strip(it2)
+        if not (its.get("k") == "Var" or (its.get("k") == "Call" and short(its.get("fn") or "") in ("iter", "iter_mut", "into_iter", "deref", "enumerate"))):
+            continue
+        local_ids = {i for i, n, _ in F.pat_binds(p2)}
+        for s in F.walk(body2):
+            if s.get("k") == "LetStmt":
+                local_ids |= {i for i, n, _ in F.pat_binds(s["pat"])}
+        for name, a in order_sensitive_assignments(body2, local_ids):
+            out.append((vecs[v["id"]], name))
+    return out
+
+
 def classify_loop(b, loop, all_loops):
     """Returns (class, detail). Sinks are Vec::push calls in the loop body whose receiver is not loop-local."""
     p, it, body, node = loop
@@ -244,6 +334,9 @@ def classify_loop(b, loop, all_loops):
     both = sorted(written[k] for k in written if k in read)
     if both:
         return "cross-iteration-state", "the loop both updates and reads %s, which outlives an iteration: the result depends on the hash order of the iterations" % ", ".join(both)
+    lww = order_sensitive_assignments(body, local_ids)
+    if lww:
+        return "last-writer-wins", "the loop assigns %s from the element being visited (not a min/max/sum-style update): the value left after the loop depends on the hash order" % ", ".join(sorted({n or "?" for n, _ in lww}))
     early = [x for x in F.walk(body) if x.get("k") == "Return" and "e" in x and x.get("mac") is None]
     if early:
         return "early-exit", "the loop returns a value from inside a hash iteration"
@@ -343,6 +436,13 @@ def rule_hash(chk, reach):
             if not ok and rkey and rkey in REVIEWED:
                 ok, reason = True, REVIEWED[rkey]
                 cls = "reviewed"
+                if loop is not None:
+                    cons = hash_ordered_vec_consumers(b, loop, loops)
+                    if cons:
+                        ok = False
+                        cls = "hash-ordered-vec-consumer"
+                        detail = "the Vec `%s` filled in hash order is later walked by a loop that assigns %s from the element being visited (not a min/max/sum-style update): the value left after the loop depends on the hash order" % (
+                            cons[0][0], ", ".join(sorted({c[1] or "?" for c in cons})))
             classes[cls] = classes.get(cls, 0) + 1
             in_reach = owner in reach
             chk.ob(key, ok, "%s: %s" % (cls, reason or detail) if ok else
